@@ -152,6 +152,22 @@ impl SeqModel for C18 {
         (w.steps != 0 && w.steps != 3) || letter % self.slice.1 == self.slice.0 || (w.steps == 3 && !w.snap.contains_key("t"))
     }
     fn step(&self, w: &mut W, letter: usize) -> Vec<StepViolation> {
+        // the engine keeps using a world whose state a letter did not change: the step counter
+        // (which `enabled` reads to slice the work at the roots) must then not have moved either
+        let s0 = w.steps;
+        let k0 = if s0 <= 3 { Some(self.key(w)) } else { None };
+        let r = self.step_inner(w, letter);
+        if let Some(k0) = k0 {
+            if r.is_empty() && self.key(w) == k0 {
+                w.steps = s0;
+            }
+        }
+        r
+    }
+}
+
+impl C18 {
+    fn step_inner(&self, w: &mut W, letter: usize) -> Vec<StepViolation> {
         w.ctx.install();
         let l = self.letters[letter].clone();
         w.steps += 1;
